@@ -28,6 +28,7 @@ mod c19;
 mod c14;
 mod c20;
 mod c10;
+mod c07;
 
 pub struct Budget {
     pub end: Instant,
@@ -59,6 +60,7 @@ fn run_one(pid: &str, input: &Value) -> Option<Value> {
         "C14" => c14::run(&input),
         "C20" => c20::run(&input),
         "C10" => c10::run(&input),
+        "C07" => c07::run(&input),
         _ => None,
     });
     match r {
@@ -93,6 +95,7 @@ fn gen(pid: &str, r: &mut rng::Rng) -> Option<Value> {
         "C14" => Some(c14::gen(r)),
         "C20" => Some(c20::gen(r)),
         "C10" => Some(c10::gen(r)),
+        "C07" => Some(c07::gen(r)),
         _ => None,
     }
 }
